@@ -715,6 +715,129 @@ theorem C10_pick_spec (sk : Nat) (sch : Nat → Option Strat) (evs : List PolEve
     polLookup (after sk sch evs) ks t = PlacementPol.Spec.lookup (after sk sch evs) ks t :=
   lookup_of_inv _ (inv_run evs _ (inv_init sk sch) hev) ks hf t hs hk
 
+/-! ## freshness made concrete, and the seeded family as a theorem over all histories -/
+
+theorem update_fresh_schema (s : PolState) (ks : Nat) :
+    ks ∈ (updateReplicas s ks).fresh ∧ (updateReplicas s ks).schema = s.schema := by
+  have hfr : ks ∈ (if ks ∈ s.fresh then s.fresh else s.fresh ++ [ks]) := by
+    by_cases h : ks ∈ s.fresh
+    · simp [h]
+    · simp [h]
+  unfold updateReplicas
+  cases s.schema ks with
+  | none => exact ⟨hfr, rfl⟩
+  | some strat =>
+    cases hr : s.ring with
+    | none => exact ⟨hfr, rfl⟩
+    | some pr =>
+      obtain ⟨p, ring⟩ := pr
+      simp only
+      cases hm : replicaMapOf ring strat with
+      | none => exact ⟨hfr, rfl⟩
+      | some r =>
+        cases r with
+        | error e => exact absurd hm (replicaMapOf_ok ring strat e)
+        | ok rr => exact ⟨hfr, rfl⟩
+
+/-- every ring recomputation re-reads the session keyspace: it is fresh afterwards -/
+theorem recompute_fresh_schema (s : PolState) (hc : s.crashed = false) :
+    s.sessKs ∈ (recompute s).fresh ∧ (recompute s).schema = s.schema := by
+  have h := update_crashed { s with ring := resetTokenRing s, fresh := [] } s.sessKs
+  have hnc : (updateReplicas { s with ring := resetTokenRing s, fresh := [] } s.sessKs).crashed = false := by
+    rw [h]; exact hc
+  unfold recompute
+  simp only [hnc, Bool.false_eq_true, if_false]
+  exact update_fresh_schema { s with ring := resetTokenRing s, fresh := [] } s.sessKs
+
+/-- `C10_fresh_after_keyspace_changed`: right after KeyspaceChanged(ks) the keyspace is fresh (any history) -/
+theorem C10_fresh_after_keyspace_changed (sk : Nat) (sch : Nat → Option Strat) (evs : List PolEvent) (ks : Nat) :
+    ks ∈ (after sk sch (evs ++ [.keyspaceChanged ks])).fresh := by
+  have hc : (after sk sch evs).crashed = false := C10_policy_no_panic sk sch evs
+  have : after sk sch (evs ++ [.keyspaceChanged ks]) = polStep (after sk sch evs) (.keyspaceChanged ks) := by
+    simp [after, polRun, List.foldl_append]
+  rw [this, polStep_nocrash _ _ hc]
+  dsimp only
+  have hnc : (updateReplicas (after sk sch evs) ks).crashed = false := by rw [update_crashed]; exact hc
+  rw [if_neg (by rw [hnc]; simp)]
+  exact (update_fresh_schema _ ks).1
+
+/-- the events that rebuild the token ring in state `s` -/
+def RingEvent (s : PolState) : PolEvent → Prop
+  | .addHost p => hasAddr s.hosts p.addr = false
+  | .addHosts _ => True
+  | .removeHost a => hasAddr s.hosts a = true
+  | .setPartitioner p => s.part ≠ p
+  | _ => False
+
+/-- a ring event is a recomputation on a state with the same session keyspace and schema -/
+theorem ringEvent_recompute (s : PolState) (e : PolEvent) (hc : s.crashed = false) (hr : RingEvent s e) :
+    ∃ s', polStep s e = recompute s' ∧ s'.crashed = false ∧ s'.sessKs = s.sessKs ∧ s'.schema = s.schema := by
+  rw [polStep_nocrash s e hc]
+  cases e with
+  | addHost p =>
+    dsimp only
+    simp only [RingEvent] at hr
+    rw [if_neg (by rw [hr]; simp)]
+    exact ⟨_, rfl, hc, rfl, rfl⟩
+  | addHosts ps => exact ⟨_, rfl, hc, rfl, rfl⟩
+  | removeHost a =>
+    dsimp only
+    simp only [RingEvent] at hr
+    rw [if_pos hr]
+    exact ⟨_, rfl, hc, rfl, rfl⟩
+  | setPartitioner p =>
+    dsimp only
+    simp only [RingEvent] at hr
+    rw [if_neg hr]
+    exact ⟨_, rfl, hc, rfl, rfl⟩
+  | hostUp a => exact absurd hr (by simp [RingEvent])
+  | hostDown a => exact absurd hr (by simp [RingEvent])
+  | keyspaceChanged ks => exact absurd hr (by simp [RingEvent])
+  | setSchema ks v => exact absurd hr (by simp [RingEvent])
+
+/-- `C10_fresh_session_after_ring_event`: right after any event that rebuilds the ring the session keyspace is fresh -/
+theorem C10_fresh_session_after_ring_event (sk : Nat) (sch : Nat → Option Strat) (evs : List PolEvent) (e : PolEvent)
+    (hr : RingEvent (after sk sch evs) e) : sk ∈ (after sk sch (evs ++ [e])).fresh := by
+  have hc : (after sk sch evs).crashed = false := C10_policy_no_panic sk sch evs
+  have : after sk sch (evs ++ [e]) = polStep (after sk sch evs) e := by
+    simp [after, polRun, List.foldl_append]
+  obtain ⟨s', h1, h2, h3, _⟩ := ringEvent_recompute _ e hc hr
+  rw [this, h1]
+  have := (recompute_fresh_schema s' h2).1
+  rw [h3, sessKs_after] at this
+  exact this
+
+/-- `C10_unreadable_then_ring_change_drops_entry` (the seeded family, for ALL histories): whatever happened before,
+once the schema of the session keyspace cannot be read, the FIRST event that rebuilds the ring — a node joins, nodes are
+added in bulk, a node leaves, the partitioner is set — leaves the policy WITHOUT an entry for the session keyspace:
+the replica map computed for the previous ring does not survive (Pick then starts from the primary owner of the new
+ring, `C10_pick_spec`). -/
+theorem C10_unreadable_then_ring_change_drops_entry (sk : Nat) (sch : Nat → Option Strat) (evs : List PolEvent)
+    (e : PolEvent) (hev : Admissible evs) (he : EvOK e)
+    (hr : RingEvent (after sk sch (evs ++ [.setSchema sk none])) e) :
+    (after sk sch (evs ++ [.setSchema sk none] ++ [e])).replicas sk = none := by
+  have hadm : Admissible (evs ++ [.setSchema sk none] ++ [e]) := by
+    intro x hx
+    simp only [List.mem_append, List.mem_cons, List.mem_nil_iff, or_false] at hx
+    rcases hx with (hx | hx) | hx
+    · exact hev x hx
+    · subst hx; trivial
+    · subst hx; exact he
+  have hfresh := C10_fresh_session_after_ring_event sk sch (evs ++ [.setSchema sk none]) e hr
+  apply C10_unreadable_no_entry sk sch _ hadm sk hfresh
+  -- the schema of sk is unreadable in the final state
+  have hc1 : (after sk sch (evs ++ [.setSchema sk none])).crashed = false := C10_policy_no_panic sk sch _
+  have hstep : after sk sch (evs ++ [.setSchema sk none] ++ [e])
+      = polStep (after sk sch (evs ++ [.setSchema sk none])) e := by
+    simp [after, polRun, List.foldl_append]
+  obtain ⟨s', h1, h2, _, h4⟩ := ringEvent_recompute _ e hc1 hr
+  rw [hstep, h1, (recompute_fresh_schema s' h2).2, h4]
+  have hc0 : (after sk sch evs).crashed = false := C10_policy_no_panic sk sch evs
+  have hstep0 : after sk sch (evs ++ [.setSchema sk none]) = polStep (after sk sch evs) (.setSchema sk none) := by
+    simp [after, polRun, List.foldl_append]
+  rw [hstep0, polStep_nocrash _ _ hc0]
+  simp
+
 /-! ## witnesses: non-vacuity, and the counterexamples of the full property (kernel-checked, replayable) -/
 
 def hA : PHost := ⟨⟨1, 1, 1⟩, 1, [10]⟩
